@@ -124,6 +124,61 @@ Proof. vm_compute. repeat split; reflexivity. Qed.
 Example c08_guard_zero_gap : guard_run 0 [0; 0; -1]%list = [Some 0; Some 0; Some (-1)]%list.
 Proof. reflexivity. Qed.
 
+(* ---------------------------------------------------------------------------------------
+   what must NOT change, and the premise for the package-level API (C08/Proofs2.v) *)
+From FV Require Import C08.Proofs2.
+
+(* "a failed store call surfaces as an error without consuming or duplicating ids" — for EVERY
+   history and every starting world, with no premise at all: erase all the events that came
+   back with the store's error (failed Init, failed re-lease, before or after the counter
+   moved); every remaining event returns exactly what it returned in the full history — same
+   ids, same store calls — so the failures consumed nothing and changed nothing. *)
+Theorem c08_failed_calls_consume_nothing : forall w h,
+  filter not_store_error (run w h) = run w (erase_failed w h) /\
+  ids (run w (erase_failed w h)) = ids (run w h).
+Proof. intros w h. split; [apply erase_failed_thm | apply failed_calls_consume_nothing]. Qed.
+Print Assumptions c08_failed_calls_consume_nothing.
+
+Example c08_example_erase :
+  length (erase_failed empty c08_example_history) = 16%nat /\
+  ids (run empty (erase_failed empty c08_example_history)) = [22; 23; 24; 31; 25; 34; 26; 27; 16]%list /\
+  ids (run empty c08_example_history) = [22; 23; 24; 31; 25; 34; 26; 27; 16]%list.
+Proof. vm_compute. repeat split; reflexivity. Qed.
+
+(* The package-level API (api.go): Init(store) creates a generator with the default step and
+   publishes it only if its first lease succeeded; NextID() calls the published generator.
+   For every sequence of api calls and store answers, two parts of the premise hold by
+   construction (one step; never used before a successful Init) and what remains is the store's
+   side: the counters it hands out are pairwise distinct — and representable (no int64
+   overflow at step 2000).  Then all ids are distinct and lie in segments that were leased. *)
+Theorem c08_api_all_distinct : forall l,
+  init_answers_fit l ->
+  let tr := run empty (api_events 0 None l) in
+  NoDup (lease_cs tr) -> Forall (fits D) (lease_cs tr) ->
+  NoDup (ids tr) /\
+  forall i, In i (ids tr) -> exists c, In c (lease_cs tr) /\ c * D < i <= (c + 1) * D.
+Proof. exact api_all_distinct. Qed.
+Print Assumptions c08_api_all_distinct.
+
+Theorem c08_api_premise : forall l,
+  init_answers_fit l ->
+  let tr := run empty (api_events 0 None l) in
+  NoDup (lease_cs tr) -> Forall (fits D) (lease_cs tr) ->
+  premise D (api_events 0 None l) = true.
+Proof. exact api_premise. Qed.
+Print Assumptions c08_api_premise.
+
+(* non-vacuity: NextID before any Init (nothing), a failed first Init, a successful one, ids, a
+   failed re-Init that must keep the old generator, a successful re-Init *)
+Example c08_example_api :
+  let l := [ANext StoreErrBefore; AInit StoreErrBefore; AInit (StoreOk 7); ANext StoreErrBefore;
+            ANext StoreErrBefore; AInit (StoreErrAfter 9); ANext StoreErrBefore; AInit (StoreOk 12);
+            ANext StoreErrBefore]%list in
+  ids (run empty (api_events 0 None l)) = [14001; 14002; 14003; 24001]%list /\
+  lease_cs (run empty (api_events 0 None l)) = [7; 12]%list /\
+  premise D (api_events 0 None l) = true.
+Proof. vm_compute. repeat split; reflexivity. Qed.
+
 (* ------------------------------------------------------------------------------------------
    Tie to the source (C08/Source.v): the head of SeqIDGen.Next - the in-segment fast path that
    hands out lastID+1 without asking the store - and NewSeqIDGen's default step are
